@@ -645,7 +645,13 @@ func evalCond(e ast.Expr, as []assump) tri {
 // `text == val` only follows the feasible arm.  Every identifier in text must be a variable that
 // is assigned at most once in the function (so the assumption is stable along a path); otherwise
 // the query is undecided.
-func (f *Fn) Given(text string, val bool) *Fn {
+func (f *Fn) Given(text string, val bool) *Fn { return f.given(text, val, true) }
+
+// GivenBranch is Given for a condition that is itself the event of interest (e.g. the result of
+// an errors.As call): the branch arms are selected, no claim about later re-evaluation is made.
+func (f *Fn) GivenBranch(text string, val bool) *Fn { return f.given(text, val, false) }
+
+func (f *Fn) given(text string, val bool, checkStable bool) *Fn {
 	nf := &Fn{Graph: f.Graph, C: f.C, blocked: map[[2]*cfg.Block]bool{}}
 	nf.assumps = append(append([]assump{}, f.assumps...), assump{text, val})
 	n := 0
@@ -691,6 +697,9 @@ func (f *Fn) Given(text string, val bool) *Fn {
 	}
 	// stability: each assumed variable has at most one assignment (its definition)
 	for _, v := range vars {
+		if !checkStable {
+			break
+		}
 		defs := 0
 		ast.Inspect(f.Body, func(x ast.Node) bool {
 			switch s := x.(type) {
